@@ -136,6 +136,88 @@ func checkC12(c *Ctx, r *Report) {
 		ok := s != nil && len(s.ret) > 0 && !s.retFresh[0] && (s.ret[0][0] || s.ret[0][1])
 		r.Check(ok, "R12d", c.FnName(tc), "live view", c.Pos(tc.Pos()), "result derives from the receiver and is never a fresh object", "Child() hands out a copy of the sub-config: writes through the child handle are no longer visible through the parent")
 	}
+	liveChildRule(c, r)
+}
+
+// liveChildRule (R12g): the two ends of the live view. SetChild puts the caller's own config into the tree (wrapped,
+// never copied), and Child returns what toConfig of the stored value returns (R12d: the stored config itself).
+func liveChildRule(c *Ctx, r *Report) {
+	r.Rule("R12g", "SetChild stores the config it is given (wrapped in cfgSub, on every path), Child returns the result of toConfig on the stored value: both ends of the live view are the same object", 2)
+	cfgT := c.Named("", "Config")
+	if sc := c.Method("", "Config", "SetChild"); sc != nil {
+		var param *ssa.Parameter
+		for _, p := range sc.Params[1:] {
+			if pt, ok := p.Type().(*types.Pointer); ok && types.Identical(pt.Elem(), cfgT) {
+				param = p
+			}
+		}
+		n := 0
+		valueT := c.Named("", "value")
+		for _, ci := range CallsIn(sc, false) {
+			g := ci.Common().StaticCallee()
+			if g == nil || g.Pkg != c.SSA[""] {
+				continue
+			}
+			for _, a := range ci.Common().Args {
+				if !types.Identical(a.Type(), valueT) {
+					continue
+				}
+				n++
+				own, why := false, "the value handed on is not a cfgSub wrapper built here"
+				if mi, ok := a.(*ssa.MakeInterface); ok {
+					if l, ok := mi.X.(*ssa.UnOp); ok && l.Op == token.MUL {
+						if al, ok := l.X.(*ssa.Alloc); ok {
+							own, why = param != nil, "the wrapped config is the parameter itself"
+							stores := 0
+							for _, ref := range *al.Referrers() {
+								fa, ok := ref.(*ssa.FieldAddr)
+								if !ok {
+									if st, isSt := ref.(*ssa.Store); isSt && st.Addr == ssa.Value(al) {
+										own, why = false, "the wrapper is taken over from "+st.Val.String()
+									}
+									continue
+								}
+								for _, r2 := range *fa.Referrers() {
+									if st, isSt := r2.(*ssa.Store); isSt && st.Addr == ssa.Value(fa) {
+										stores++
+										for _, s := range Sources(st.Val) {
+											if s != ssa.Value(param) {
+												own, why = false, "the wrapped config can be "+s.String()
+											}
+										}
+									}
+								}
+							}
+							if stores == 0 {
+								own, why = false, "the wrapper's config is never set"
+							}
+						}
+					}
+				}
+				r.Check(own, "R12g", c.FnName(sc), "stores the given config", c.Pos(ci.Pos()), why, "SetChild can put something else than the caller's config into the tree ("+why+"): writes through the handle the caller keeps are not visible through the parent, Child() at that address returns another object")
+			}
+		}
+		if n == 0 {
+			r.add("R12g", c.FnName(sc), "stores the given config", c.Pos(sc.Pos()), Undecided, true, "SetChild hands no value to a setter")
+		}
+	}
+	if ch := c.Method("", "Config", "Child"); ch != nil {
+		for _, ret := range Returns(ch) {
+			ok, why := true, "nil or the result of toConfig"
+			for _, s := range Sources(RetVal(ret, 0)) {
+				if IsNilConst(s) {
+					continue
+				}
+				if ex, isE := s.(*ssa.Extract); isE && ex.Index == 0 {
+					if call, isC := ex.Tuple.(*ssa.Call); isC && call.Call.IsInvoke() && call.Call.Method.Name() == "toConfig" {
+						continue
+					}
+				}
+				ok, why = false, "the result can be "+s.String()
+			}
+			r.Check(ok, "R12g", c.FnName(ch), "returns the stored config", c.Pos(ret.Pos()), why, "Child does not return what toConfig of the stored value gives ("+why+"): the handle is not the node in the tree")
+		}
+	}
 }
 
 func isString(t types.Type) bool {
